@@ -470,6 +470,48 @@ def run(chk, prog):
     from . import shared as _sh6
     _sh6.rule_addr_map(chk, prog, "attributes", "source address filters see")
 
+    # (6c) the destination of a UDP session is the one the rules were evaluated on.  The direct connector sends a session's datagrams
+    # to the session target; only a session opened without a concrete target (0.0.0.0 / ::, the "full cone" form) takes the
+    # destination from the frame.  A frame address that overrides a concrete session target lets a client reach, through an accepted
+    # session, a destination the rules deny.
+    dw = [prog.body_of(f_) for f_ in prog.fns.values() if f_.crate == "redproxy_rs" and
+          re.search(r"connectors::direct::DirectFrames as common::frames::FrameWriter>::write$", f_.path)]
+    if len(dw) != 1:
+        chk.anchor_missing("udp-target", "DirectFrames::write")
+    else:
+        g = dw[0]
+        snd = [c for c in g.calls if re.search(r"udp::UdpSocket::send_to$", c.path or "")]
+        uns = [c for c in g.calls if re.search(r"IpAddr::is_unspecified$", c.path or "") and c.args and op_base(c.args[0]) is not None and
+               "f:target" in str(g.trace(op_base(c.args[0]), through_calls=[r"SocketAddr::ip$"]))]
+        okd = len(snd) == 1 and len(uns) >= 1
+        why = "send_to calls %d, is_unspecified(self.target) tests %d" % (len(snd), len(uns))
+        if okd:
+            l = op_base(snd[0].args[2])
+            for _ in range(6):               # back through single moves to the variable assigned in the arms
+                d = g.defs.get(l, [])
+                if len(d) == 1 and d[0][1] != "term" and d[0][2]["k"] == "use" and op_base(d[0][2]["a"]) is not None and len(op_place(d[0][2]["a"])) == 1:
+                    l = op_base(d[0][2]["a"])
+                    continue
+                break
+            true_edges = [(sb, tt) for u in uns for (sb, tt, ft) in bool_branch(g, u.dest[0])]
+            nd = 0
+            for (b, i, rv) in g.defs.get(l, []):
+                nd += 1
+                from_session = i != "term" and rv["k"] == "use" and op_place(rv["a"]) and "f:target" in op_place(rv["a"])[1:]
+                if from_session:
+                    continue
+                if not any(edge_dominates(g, sb, tb, b) for sb, tb in true_edges):
+                    okd = False
+                    why = "a destination that is not the session target is chosen at %s:bb%d outside the `session target is unspecified` branch" % (g.file, b)
+            if nd == 0:
+                okd = False
+                why = "destination of send_to not understood"
+        chk.instance("udp-target", "%s:%s" % (g.file, g.line), "DirectFrames::write sends to the session target unless that target is unspecified", okd, why)
+        if not okd:
+            chk.finding("udp-target", g.key, "frame-address-overrides", "", "%s:%s" % (g.file, g.line),
+                        "DirectFrames::write can send a datagram to the address a frame names although the session has a concrete target (%s): "
+                        "the rules were evaluated on the session target, so a client of an accepted session reaches destinations the rules deny" % why)
+
     # ---------------------------------------------------------------- (7) cidr_match
     cm = prog.find(r"script_ext::CidrMatch as milu::script::Callable>::call$", "redproxy_rs")
     if len(cm) != 1:
